@@ -28,6 +28,7 @@ def plan(tier, seed):
     pairs += G.multiples(rng.sample(pick, 100 if q else len(pick)), 3)
     pairs += G.unions(rng, pick, 150 if q else 3000)
     pairs += G.ionic_balanced(rng, 200 if q else 2000)
+    pairs += [p for p in G.dot_ring_closures(rng, 60 if q else 400) if oracle.balanced(p[1])]
     cases = rowlib.gen_cases(pairs, 30, CFGS, "bal")
     # converse: unbalanced inputs
     cases += rowlib.corpus_cases(rng, 100 if q else 1500, 10, CFGS, tag="unbal")
